@@ -623,6 +623,62 @@ def apply(cls, devs):
     return obj
 
 
+def _scalar_lists(obj, depth=2):
+    """Paths to list-valued members whose elements are scalars (Decimal, str, int, enum), down to `depth` nested values."""
+    out = []
+    if not hasattr(obj, 'sorted_container_properties'):
+        return out
+    for name, _prop in obj.sorted_container_properties():
+        try:
+            v = getattr(obj, name)
+        except Exception:  # noqa: BLE001
+            continue
+        if isinstance(v, list) and v:
+            if hasattr(v[0], 'sorted_container_properties'):
+                if depth > 0:
+                    out += [((name, 0) + p) for p in _scalar_lists(v[0], depth - 1)]
+            elif not isinstance(v[0], (etree._Element, list, dict)):
+                out.append((name,))
+        elif hasattr(v, 'sorted_container_properties') and depth > 0:
+            out += [((name,) + p) for p in _scalar_lists(v, depth - 1)]
+    return out
+
+
+def _resolve_path(obj, path):
+    for el in path:
+        obj = obj[el] if isinstance(el, int) else getattr(obj, el)
+    return obj
+
+
+def inplace_problems(make_obj, tag):
+    """Write, edit scalar lists in place, write again: the second output must be what a never-written equal value gives
+    (no converted text may be remembered from the first write)."""
+    a, b = make_obj(), make_obj()
+    try:
+        if write(a, tag) is None:
+            return []
+    except Exception:  # noqa: BLE001
+        return []
+    paths = _scalar_lists(a)
+    if not paths:
+        return []
+    for edit in ('append-first', 'replace-last'):
+        for path in paths:
+            for o in (a, b):
+                lst = _resolve_path(o, path)
+                if edit == 'append-first':
+                    lst.append(lst[0])
+                else:
+                    lst[-1] = lst[0]
+        try:
+            xa, xb = c14n(write(a, tag)), c14n(write(b, tag))
+        except Exception as ex:  # noqa: BLE001
+            return [('write-after-in-place-edit-raises', repr(ex)[:200])]
+        if xa != xb:
+            return [('write-after-in-place-edit-differs', f'{edit} at {paths[:3]}: {_first_diff(xb, xa)}'[:400])]
+    return []
+
+
 def _class_job(acc, arg):
     name, pairs = arg
     world.install()     # virtual clock: CurrentTimestamp members write the same instant every time
@@ -662,6 +718,15 @@ def _class_job(acc, arg):
             del ex
             continue
         problems, xml = judge(cls, obj, target, label)
+        if label == 'base' or label.startswith('all-members') or (devlist and len(devlist) == 1 and isinstance(devlist[0][2], list)):
+            def make_obj(label=label, devlist=devlist):
+                if label.startswith('all-members'):
+                    o = reflect.new(cls)
+                    fill(o, 2, variant=0 if devlist is None else 1, everything=True, model=class_model(cls))
+                    return o
+                return apply(cls, devlist)
+            tag = etree.QName(target[1], target[2]) if target is not None and target[0] == 'element' else reflect.TAG
+            problems = problems + inplace_problems(make_obj, tag)
         acc.evals()
         acc.trace()
         acc.transition()
